@@ -22,7 +22,7 @@ on a reachable state, with invariant, valid operand and enough fuel, the returne
 diagram different from `Tree.restrict f`; so `restrict_refines` is not true of any implementation.
 The defect is exactly the sharing of entries between predicates: `seeded_bug_memo_sound_for_one_predicate`,
 `seeded_bug_repair` (a table started empty for each top-level call is sound).
-NOT modelled: `simplify_python_versions` / `complexify_python_versions` on ids (tree level: C12/C13).
+`simplify_python_versions` / `complexify_python_versions` on ids: Theorems/C14c.lean.
 -/
 import Pep508.Proofs.InternerOps
 import Pep508.Theorems.C15
